@@ -1,5 +1,6 @@
 #!/bin/bash
 # usage: try_seeded.sh <PROPERTY> <dir with patch.diff demo.py> <name> [tier]
+# TESTS="tests/x.py ..." (optional) also runs these pinned test files in the patched worktree.
 # Applies the patch in a scratch worktree of /repo HEAD, runs the demo with/without, runs ./check against it.
 P=$1; SRC=$2; NAME=$3; TIER=${4:-quick}
 WT=/var/tmp/vf/wt/seed_$NAME
@@ -9,9 +10,15 @@ git -C /repo worktree remove --force $WT >/dev/null 2>&1
 git -C /repo worktree add --detach $WT HEAD >/dev/null 2>&1 || { echo "worktree failed"; exit 2; }
 cp $SRC/patch.diff $OUT/patch.diff; cp $SRC/demo.py $OUT/demo.py 2>/dev/null; cp $SRC/README.md $OUT/README.agent.md 2>/dev/null
 cd $WT
-( timeout 900 /venv/bin/python $OUT/demo.py >/dev/null 2>&1; echo "demo_without=$?" ) > $OUT/result.txt
+( PYTHONPATH=$WT timeout 900 /venv/bin/python $OUT/demo.py >/dev/null 2>&1; echo "demo_without=$?" ) > $OUT/result.txt
 if ! git apply $OUT/patch.diff 2>>$OUT/result.txt; then echo "apply=FAILED" >> $OUT/result.txt; cat $OUT/result.txt; git -C /repo worktree remove --force $WT; exit 3; fi
-( timeout 900 /venv/bin/python $OUT/demo.py >/dev/null 2>&1; echo "demo_with=$?" ) >> $OUT/result.txt
+( PYTHONPATH=$WT timeout 900 /venv/bin/python $OUT/demo.py >/dev/null 2>&1; echo "demo_with=$?" ) >> $OUT/result.txt
+if [ -n "$TESTS" ]; then
+  # only the node ids of BASELINE.json's stable_pass that live in the named test files
+  for f in $TESTS; do grep "^$f::" /verif/tools/baseline_ids.txt; done > /var/tmp/vf/ids_$NAME.txt
+  ( echo "tests_selected=$(wc -l < /var/tmp/vf/ids_$NAME.txt)"; PYTHONPATH=$WT timeout 2400 /venv/bin/python -m pytest -q -p no:cacheprovider --timeout=600 -n 4 @/var/tmp/vf/ids_$NAME.txt 2>&1 | tail -1 | sed 's/^/tests_with: /' ) >> $OUT/result.txt
+  rm -f /var/tmp/vf/ids_$NAME.txt
+fi
 cd /verif
 VERIF_REPO=$WT VERIF_SKIP_DET=1 ./check $P --tier $TIER --no-evidence > $OUT/check_$TIER.log 2>&1
 echo "check_${TIER}_rc=$?" >> $OUT/result.txt
